@@ -83,6 +83,9 @@ func (in *inst) Body() {
 		t := transport.SSE{}
 		if in.sc.KeepAlive {
 			t.KeepAlivePingInterval = 10 * time.Second
+			if !vrt.Active() {
+				t.KeepAlivePingInterval = 20 * time.Microsecond // free-running race pass: real ticks
+			}
 		}
 		srv.AddTransport(t)
 	} else {
